@@ -573,3 +573,165 @@ Proof.
   destruct (C02_header_int_pair _ _ _ _ _ Hh Hl) as (pairs & -> & Hin).
   exists body, pairs. split; [exact Ho|exact Hin].
 Qed.
+
+(* ================================================================================================ *)
+(** * 3. Round trip of a rendered header through the reader's header parser *)
+
+(** ** 3a. decimal rendering of integers: [Z_to_dec] is read back by [convert_value] *)
+
+Lemma digit_byte : forall m, (m < 10)%N ->
+  is_digit (n_byte (48 + m)) = true /\ (byte_n (n_byte (48 + m)) - 48 = m)%N.
+Proof.
+  intros m H. unfold is_digit, in_range. rewrite byte_n_n_byte by lia. split; [|lia].
+  apply andb_true_iff. split; apply N.leb_le; lia.
+Qed.
+
+Local Notation all_digits l := (Forall (fun b => is_digit b = true) l).
+
+Lemma N_digits_fuel_digits : forall f n acc, all_digits acc -> all_digits (N_digits_fuel f n acc).
+Proof.
+  induction f as [|f IH]; intros n acc H; cbn [N_digits_fuel]; [exact H|]. cbv zeta.
+  assert (Hd : all_digits (n_byte (48 + N.modulo n 10) :: acc)).
+  { constructor; [|exact H]. apply digit_byte. apply N.mod_lt. discriminate. }
+  destruct (N.eqb (N.div n 10) 0); [exact Hd|apply IH; exact Hd].
+Qed.
+
+Lemma N_digits_fuel_nonempty : forall f n acc, acc <> [] -> N_digits_fuel f n acc <> [].
+Proof.
+  induction f as [|f IH]; intros n acc H; cbn [N_digits_fuel]; [exact H|]. cbv zeta.
+  destruct (N.eqb (N.div n 10) 0); [discriminate|apply IH; discriminate].
+Qed.
+
+Lemma dec_fold_lin : forall l a,
+  fold_left (fun acc b => (acc * 10 + (byte_n b - 48))%N) l a
+  = (a * 10 ^ N.of_nat (length l) + fold_left (fun acc b => (acc * 10 + (byte_n b - 48))%N) l 0)%N.
+Proof.
+  induction l as [|d t IH]; intros a; cbn [fold_left length].
+  - change (N.of_nat 0) with 0%N. rewrite N.pow_0_r. lia.
+  - rewrite IH. rewrite (IH (0 * 10 + (byte_n d - 48))%N).
+    rewrite Nat2N.inj_succ, N.pow_succ_r'. set (P := (10 ^ N.of_nat (length t))%N). lia.
+Qed.
+
+Lemma dec_to_N_cons : forall d l,
+  dec_to_N (d :: l) = ((byte_n d - 48) * 10 ^ N.of_nat (length l) + dec_to_N l)%N.
+Proof. intros. unfold dec_to_N. cbn [fold_left]. rewrite dec_fold_lin. lia. Qed.
+
+Lemma N_digits_fuel_value : forall f n acc, (n < 2 ^ N.of_nat f)%N ->
+  dec_to_N (N_digits_fuel f n acc) = (n * 10 ^ N.of_nat (length acc) + dec_to_N acc)%N.
+Proof.
+  induction f as [|f IH]; intros n acc H.
+  - change (N.of_nat 0) with 0%N in H. rewrite N.pow_0_r in H. assert (n = 0%N) by lia. subst n.
+    cbn [N_digits_fuel]. lia.
+  - cbn [N_digits_fuel]. cbv zeta.
+    assert (Hm : (N.modulo n 10 < 10)%N) by (apply N.mod_lt; discriminate).
+    assert (Hdm : n = (10 * N.div n 10 + N.modulo n 10)%N) by (apply N.div_mod; discriminate).
+    destruct (digit_byte _ Hm) as [_ Hv].
+    rewrite Nat2N.inj_succ, N.pow_succ_r' in H.
+    set (q := N.div n 10) in *. set (m := N.modulo n 10) in *. clearbody q m.
+    destruct (N.eqb q 0) eqn:Eq.
+    + apply N.eqb_eq in Eq. rewrite dec_to_N_cons, Hv. subst q. replace m with n by lia. reflexivity.
+    + apply N.eqb_neq in Eq. rewrite IH by lia. rewrite dec_to_N_cons, Hv. cbn [length].
+      rewrite Nat2N.inj_succ, N.pow_succ_r'. set (P := (10 ^ N.of_nat (length acc))%N).
+      rewrite Hdm. lia.
+Qed.
+
+Lemma N_to_dec_value : forall n, dec_to_N (N_to_dec n) = n.
+Proof.
+  intros n. unfold N_to_dec. rewrite N_digits_fuel_value.
+  - cbn [length]. change (N.of_nat 0) with 0%N. rewrite N.pow_0_r. unfold dec_to_N. cbn [fold_left]. lia.
+  - rewrite Nat2N.inj_succ, N2Nat.id. destruct n as [|p]; [reflexivity|]. apply N.log2_spec. lia.
+Qed.
+
+Lemma N_to_dec_digits : forall n, all_digits (N_to_dec n) /\ N_to_dec n <> [].
+Proof.
+  intros n. unfold N_to_dec. split; [apply N_digits_fuel_digits; constructor|].
+  cbn [N_digits_fuel]. cbv zeta. destruct (N.eqb _ 0); [discriminate|apply N_digits_fuel_nonempty; discriminate].
+Qed.
+
+Lemma N_digits_fuel_len : forall f n acc k, (n < 10 ^ N.of_nat k)%N -> 1 <= k ->
+  length (N_digits_fuel f n acc) <= length acc + k.
+Proof.
+  induction f as [|f IH]; intros n acc k H Hk; cbn [N_digits_fuel]; [lia|]. cbv zeta.
+  assert (Hdm : n = (10 * N.div n 10 + N.modulo n 10)%N) by (apply N.div_mod; discriminate).
+  set (q := N.div n 10) in *. set (m := N.modulo n 10) in *. clearbody q m.
+  destruct (N.eqb q 0) eqn:Eq; [cbn [length]; lia|]. apply N.eqb_neq in Eq.
+  destruct k as [|k]; [lia|]. rewrite Nat2N.inj_succ, N.pow_succ_r' in H.
+  destruct k as [|k].
+  - change (N.of_nat 0) with 0%N in H. rewrite N.pow_0_r in H. lia.
+  - specialize (IH q (n_byte (48 + m) :: acc) (S k)). cbn [length] in IH.
+    assert (length (N_digits_fuel f q (n_byte (48 + m) :: acc)) <= S (length acc) + S k); [|lia].
+    apply IH; [|lia]. set (P := (10 ^ N.of_nat (S k))%N) in *. lia.
+Qed.
+
+(* sys.get_int_max_str_digits(): the reader leaves longer digit strings as strings *)
+Definition small_int (z : Z) : Prop := length (digits_of (Z_to_dec z)) <= HeaderFacts.max_digits.
+
+Lemma digits_of_digits : forall v, all_digits v -> digits_of v = v.
+Proof.
+  intros v H. destruct v as [|c t]; [reflexivity|]. inversion H; subst. cbn [digits_of].
+  rewrite HeaderFacts.digit_not_minus by assumption. reflexivity.
+Qed.
+
+Lemma small_int_bound : forall z, (Z.abs_N z < 10 ^ 4300)%N -> small_int z.
+Proof.
+  intros z H. unfold small_int.
+  assert (Hn : forall n, (n < 10 ^ 4300)%N -> length (N_to_dec n) <= HeaderFacts.max_digits).
+  { intros n Hlt. unfold N_to_dec. change HeaderFacts.max_digits with (length (@nil byte) + 4300).
+    apply N_digits_fuel_len; [|lia]. replace (N.of_nat 4300) with 4300%N by (vm_compute; reflexivity). exact Hlt. }
+  destruct z as [|p|p]; unfold Z_to_dec.
+  - cbn. unfold HeaderFacts.max_digits. lia.
+  - rewrite digits_of_digits by apply N_to_dec_digits. apply Hn. exact H.
+  - change (B "-" ++ N_to_dec (N.pos p)) with ("-"%byte :: N_to_dec (N.pos p)). cbn [digits_of].
+    change (byte_eqb "-" "-") with true. cbv iota. apply Hn. exact H.
+Qed.
+
+Lemma convert_value_digits : forall v, v <> [] -> all_digits v -> length v <= HeaderFacts.max_digits ->
+  convert_value v = VInt (Z.of_N (dec_to_N v)).
+Proof.
+  intros v Hne Hd Hl. unfold convert_value. rewrite (digits_of_digits v Hd).
+  change int_max_str_digits with HeaderFacts.max_digits. apply Nat.leb_le in Hl. rewrite Hl.
+  destruct v as [|c t]; [congruence|]. unfold int_ok.
+  assert (Ec : byte_eqb c "-"%byte = false) by (inversion Hd; subst; apply HeaderFacts.digit_not_minus; assumption).
+  rewrite Ec. apply HeaderFacts.all_b_Forall in Hd. rewrite Hd. reflexivity.
+Qed.
+
+Lemma convert_value_neg_digits : forall t, t <> [] -> all_digits t -> length t <= HeaderFacts.max_digits ->
+  convert_value ("-"%byte :: t) = VInt (- Z.of_N (dec_to_N t)).
+Proof.
+  intros t Hne Hd Hl. unfold convert_value, int_ok, digits_of.
+  change (byte_eqb "-" "-") with true. cbv iota.
+  change int_max_str_digits with HeaderFacts.max_digits. apply Nat.leb_le in Hl. rewrite Hl.
+  apply HeaderFacts.all_b_Forall in Hd. rewrite Hd. apply HeaderFacts.nonempty_true in Hne. rewrite Hne. reflexivity.
+Qed.
+
+(* int(b'%d' % z) == z, as the reader's convert_value computes it *)
+Theorem convert_value_Z_to_dec : forall z, small_int z -> convert_value (Z_to_dec z) = VInt z.
+Proof.
+  intros z Hs. unfold small_int in Hs. destruct z as [|p|p]; unfold Z_to_dec in *.
+  - vm_compute. reflexivity.
+  - destruct (N_to_dec_digits (N.pos p)) as [Hd Hne]. rewrite (digits_of_digits _ Hd) in Hs.
+    rewrite convert_value_digits by assumption. rewrite N_to_dec_value. reflexivity.
+  - destruct (N_to_dec_digits (N.pos p)) as [Hd Hne].
+    change (B "-" ++ N_to_dec (N.pos p)) with ("-"%byte :: N_to_dec (N.pos p)) in *.
+    cbn [digits_of] in Hs. change (byte_eqb "-" "-") with true in Hs. cbv iota in Hs.
+    rewrite convert_value_neg_digits by assumption. rewrite N_to_dec_value. reflexivity.
+Qed.
+
+Lemma digit_val_char : forall b, is_digit b = true -> val_char b = true.
+Proof. intros b. destruct b; vm_compute; intros H; try discriminate H; reflexivity. Qed.
+
+Theorem Z_to_dec_spec_val : forall z, HeaderFacts.spec_val (Z_to_dec z).
+Proof.
+  intros z. apply HeaderFacts.spec_val_iff. unfold val_ok.
+  assert (Hn : forall n, nonempty (N_to_dec n) = true /\ all_b val_char (N_to_dec n) = true).
+  { intros n. destruct (N_to_dec_digits n) as [Hd Hne]. split; [apply HeaderFacts.nonempty_true; exact Hne|].
+    apply HeaderFacts.all_b_Forall. eapply Forall_impl; [|exact Hd]. apply digit_val_char. }
+  destruct z as [|p|p]; unfold Z_to_dec.
+  - reflexivity.
+  - destruct (Hn (N.pos p)) as [-> ->]. reflexivity.
+  - change (B "-" ++ N_to_dec (N.pos p)) with ("-"%byte :: N_to_dec (N.pos p)). cbn [nonempty all_b].
+    destruct (Hn (N.pos p)) as [_ ->]. reflexivity.
+Qed.
+
+Example Z_to_dec_ex : Z_to_dec 1204 = B "1204" /\ Z_to_dec (-37) = B "-37" /\ small_int 1204 /\ small_int (-37).
+Proof. repeat split; try (vm_compute; reflexivity); apply small_int_bound; vm_compute; reflexivity. Qed.
